@@ -44,7 +44,7 @@ def run(ctx):
         if toks:
             ctx.violation('`unsafe` occurs in %s' % f, {'file': f}, key='unsafe:' + os.path.basename(f))
     # 4. every public value type is Send + Sync (compile-time assertions in a separate crate)
-    r = core.sh(['cargo', 'build', '--offline'], cwd=core.VERIF + '/harness_sendsync', check=False)
+    r = core.sh(['cargo', 'build', '--offline', '--target-dir', core.VERIF + '/.build/cargo-sendsync'], cwd=core.VERIF + '/harness_sendsync', check=False)
     ctx.count('send_sync', 'ok' if r.returncode == 0 else 'FAILED')
     if r.returncode != 0:
         m = re.search(r'error\[E\d+\][^\n]*\n(?:[^\n]*\n){0,12}', r.stderr)
